@@ -310,3 +310,64 @@ func H_roundPrintOps(o, i, pos int) {
 	}
 	verifAssert(got != nil && sameTree(got.Arg, p.Arg), "printed print command parses to a different tree")
 }
+
+// c17Words: every word the lexer treats specially (command names, operator words, literals; copied
+// from builtinIdents) and an ordinary identifier.
+var c17WordList = []string{"alias", "and", "call", "case", "css", "debugger", "default", "else", "elseif", "f", "false", "for", "foreach", "if", "ifempty", "in", "lb", "let", "literal", "log", "msg", "namespace", "nil", "not", "null", "or", "param", "plural", "print", "rb", "sp", "switch", "template", "true"}
+
+func c17Words() []string { return c17WordList }
+
+var c17ParsedShapes = []string{
+	"{print W($x)}",
+	"{print W($x) + 1|id}",
+	"{print W($x, 'none')}",
+	"{print 1 + W($x)}",
+	"{print [W($x)]}",
+	"{print -W($x)}",
+	"{W($x)}",
+	"{print W}",
+	"{print W.a}",
+	"{print $x.W}",
+	"{print $x?.W}",
+}
+
+// H_roundParsed: starts from source text, not from a constructed tree: a print command whose
+// expression uses the w-th special word as a function name, global or key in one of the shapes
+// above. Where the parser accepts the command as a print, the text it prints for it must parse
+// back to the same print command (whatever the parser rejects is outside the property).
+func H_roundParsed(w, shape int) {
+	ws := c17Words()
+	if w >= len(ws) {
+		return
+	}
+	cmd := ""
+	for _, c := range []byte(c17ParsedShapes[shape]) {
+		if c == 'W' {
+			cmd += ws[w]
+		} else {
+			cmd += string(c)
+		}
+	}
+	parsePrint := func(cmd string) (*ast.PrintNode, bool, error) {
+		f, err := SoyFile("p.soy", "{namespace n}\n/** @param x */\n{template .t}\n"+cmd+"\n{/template}\n")
+		if err != nil {
+			return nil, false, err
+		}
+		for _, n := range f.Body {
+			if t, ok := n.(*ast.TemplateNode); ok && len(t.Body.Nodes) == 1 {
+				p, ok := t.Body.Nodes[0].(*ast.PrintNode)
+				return p, ok, nil
+			}
+		}
+		return nil, false, nil
+	}
+	verifObserve("cmd", cmd)
+	p, isPrint, err := parsePrint(cmd)
+	if err != nil || !isPrint {
+		return
+	}
+	verifObserve("print", p.String())
+	got, isPrint2, err := parsePrint(p.String())
+	verifAssert(err == nil, "printed print command does not parse")
+	verifAssert(isPrint2 && got != nil && sameTree(got.Arg, p.Arg) && len(got.Directives) == len(p.Directives), "printed print command parses to a different tree")
+}
